@@ -1171,6 +1171,41 @@ def _(M, a, c):
     if fn == 'write': return _short_write(M, st, data)
     mo.OUT[st.d['which']].append(data)
     return ok(UNIT)
+@model_re(r'^(std|core)::mem::drop$')
+def _(M, a, c):
+    M.do_drop(a[0]); return UNIT
+@model_re(r'^Option::flatten$')
+def _(M, a, c): return a[0].fields[0] if a[0].variant == 1 else NONE()
+@model_re(r'^<.* as (Fn|FnMut|FnOnce)<\(.*\)>>::(call|call_mut|call_once)$')
+def _(M, a, c):
+    # a call through a generic `impl Fn..` / `F: Fn..` parameter: the argument tuple is spread
+    args = a[1].fields if isinstance(a[1], Agg) and a[1].ty == 'tuple' else [a[1]]
+    return callf(M, a[0], list(args))
+@model_re(r'^Option::unzip$')
+def _(M, a, c):
+    o = a[0]
+    if o.variant == 0: return Agg('tuple', 0, [NONE(), NONE()])
+    t = o.fields[0]; return Agg('tuple', 0, [some(t.fields[0]), some(t.fields[1])])
+@model_re(r'^core::bool::<impl bool>::(then|then_some)$')
+def _(M, a, c):
+    fn = norm_name(c).split('::')[-1]
+    if not M.branch(a[0]): return NONE()
+    return some(a[1]) if fn == 'then_some' else some(callf(M, a[1], []))
+@model_re(r'^(std::iter::|core::iter::)?(once|empty|repeat_n|once_with)$')
+def _(M, a, c):
+    fn = norm_name(c).split('::')[-1]
+    if fn == 'once': return from_list([a[0]])
+    if fn == 'once_with': return from_list([callf(M, a[0], [])])
+    if fn == 'empty': return from_list([])
+    if a[1].sym(): raise Unsupported("repeat_n with a symbolic count")
+    return from_list([generic_clone(M, a[0]) for _ in range(a[1].v)])
+@model_re(r'^<String as (std::fmt::|core::fmt::)?Write>::(write_fmt|write_str|write_char)$')
+def _(M, a, c):
+    fn = norm_name(c).split('::')[-1]; s = V(a[0])
+    if fn == 'write_fmt': s.d['b'].extend(mo.render_args(M, a[1]))
+    elif fn == 'write_str': s.d['b'].extend(_bytes(a[1]).items())
+    else: s.d['b'].extend(encode_char(M, a[1]))
+    return ok(UNIT)
 @model_re(r'^Option::transpose$|^std::result::Result::transpose$|^Result::transpose$')
 def _(M, a, c):
     x = a[0]
